@@ -20,10 +20,18 @@ import (
 	"verif/mc/h"
 )
 
-var promChars = regexp.MustCompile(`^[a-zA-Z0-9_]*$`)
+var promChars = regexp.MustCompile(`^[a-zA-Z_][a-zA-Z0-9_]*$`)
 var nonProm = regexp.MustCompile(`[^a-zA-Z0-9_]`)
 
-func refSanitise(k string) string { return nonProm.ReplaceAllString(k, "_") }
+// refSanitise: characters outside [a-zA-Z0-9_] become '_'; a name that would start with a digit gets a leading '_'
+// (a Prometheus label name matches [a-zA-Z_][a-zA-Z0-9_]*).
+func refSanitise(k string) string {
+	s := nonProm.ReplaceAllString(k, "_")
+	if s != "" && s[0] >= '0' && s[0] <= '9' {
+		s = "_" + s
+	}
+	return s
+}
 
 func pairsOf(keys, vals []string) []string {
 	out := []string{}
@@ -82,7 +90,7 @@ func TestC20(t *testing.T) {
 			got := pairsOf(m.LabelKeys, m.LabelValues)
 			for _, k := range m.LabelKeys {
 				if !promChars.MatchString(k) {
-					run.Violate(h.Violation{Signature: "C20/labels: emitted label name has characters outside [a-zA-Z0-9_]",
+					run.Violate(h.Violation{Signature: "C20/labels: emitted label name is not a legal Prometheus label name ([a-zA-Z_][a-zA-Z0-9_]*)",
 						Monitor: "C20/labels", Message: fmt.Sprintf("%s key %q", kind, k), Replay: meta.Labels})
 				}
 			}
@@ -220,6 +228,6 @@ func TestC20(t *testing.T) {
 	run.Cov["evaluations"] = states
 	run.Cov["label_maps"] = len(labelMaps)
 	run.Assumptions = []string{"metric families are pure functions of one object (read from the generator code)",
-		"legality of a leading digit in a sanitised key is not asserted (the statement does not settle it)"}
+		"a key whose sanitised form would start with a digit is expected with a leading underscore"}
 	exit(run.Finish("lattice: every subset (<=4 quick / all thorough) of 7 label keys incl. keys changed by sanitising and colliding keys, x status counters {0,1,7}^5 x canary/condition/state variants, through the real generators; a case is distinct by (label-map shape | status tuple)"))
 }
